@@ -49,7 +49,78 @@ def parse_starts(parsing_py_users: List[Tuple[str, str]]) -> None:
     pass
 
 
+def lexer_wiring(rep: Report, tree: ast.Module) -> None:
+    """R16.7: the embedded runtime may differ from the installed Lark (other version), so it cannot be
+    compared text for text - but the language it accepts is the grammar's only if the lexer consumes
+    input solely through the scanner built from the compared terminal table:
+      a. the input position `char_pos` is assigned only inside its owner (LineCounter);
+      b. every LineCounter.feed(..) in the lexers is fed the text that `self.match(..)` returned;
+      c. BasicLexer.match is the scanner's match, and Scanner.match returns what a compiled terminal
+         regex matched at the position."""
+    classes = {n.name: n for n in tree.body if isinstance(n, ast.ClassDef)}
+    for need in ("LineCounter", "BasicLexer", "Scanner"):
+        if need not in classes:
+            raise AnalysisError(f"_parser.py: class {need} not found (R16.7 anchor moved)")
+    # a
+    for cname, c in classes.items():
+        for n in ast.walk(c):
+            tg = n.targets if isinstance(n, ast.Assign) else ([n.target] if isinstance(n, (ast.AugAssign, ast.AnnAssign)) else [])
+            for t in tg:
+                if isinstance(t, ast.Attribute) and t.attr == "char_pos":
+                    rep.check("R16.7", f"{cname}:char_pos@{'owner' if cname == 'LineCounter' else ast.unparse(n)[:40]}", cname == "LineCounter",
+                              f"`{ast.unparse(n)[:60]}` in {cname} moves the input position outside LineCounter: input is consumed without "
+                              "being matched against the terminal table", f"src/measured/_parser.py:{n.lineno}")
+    # b
+    nfeed = 0
+    for cname in ("BasicLexer", "ContextualLexer"):
+        c = classes.get(cname)
+        if c is None:
+            continue
+        for fn in [m for m in c.body if isinstance(m, ast.FunctionDef)]:
+            matched: Set[str] = set()
+            for n in ast.walk(fn):
+                if isinstance(n, ast.Assign) and isinstance(n.value, ast.Call) and isinstance(n.value.func, ast.Attribute) \
+                        and n.value.func.attr == "match" and ast.unparse(n.value.func.value) in ("self", "self.scanner"):
+                    for t in n.targets:
+                        matched |= {x.id for x in ast.walk(t) if isinstance(x, ast.Name)}
+            changed = True
+            while changed:
+                changed = False
+                for n in ast.walk(fn):
+                    if isinstance(n, ast.Assign) and isinstance(n.value, ast.Name) and n.value.id in matched:
+                        for t in n.targets:
+                            for x in ast.walk(t):
+                                if isinstance(x, ast.Name) and x.id not in matched:
+                                    matched.add(x.id)
+                                    changed = True
+            for n in ast.walk(fn):
+                if isinstance(n, ast.Call) and isinstance(n.func, ast.Attribute) and n.func.attr == "feed" and n.args:
+                    nfeed += 1
+                    a0 = n.args[0]
+                    rep.check("R16.7", f"{cname}.{fn.name}:feed({ast.unparse(a0)[:30]})", isinstance(a0, ast.Name) and a0.id in matched,
+                              f"`{ast.unparse(n)[:60]}` advances the lexer by text that did not come from self.match(..): characters are consumed "
+                              "by something other than the grammar's terminals (the shipped parser accepts strings the grammar rejects, or the reverse)",
+                              f"src/measured/_parser.py:{n.lineno}")
+    if nfeed < 2:
+        raise AnalysisError(f"_parser.py: only {nfeed} LineCounter.feed call(s) found in the lexers (R16.7 anchor moved)")
+    # c
+    bm = [m for m in classes["BasicLexer"].body if isinstance(m, ast.FunctionDef) and m.name == "match"]
+    rets = [r for m in bm for r in ast.walk(m) if isinstance(r, ast.Return) and r.value is not None]
+    okc = bool(rets) and all(isinstance(r.value, ast.Call) and ast.unparse(r.value.func) in ("self.scanner.match", "self._scanner.match") for r in rets)
+    rep.check("R16.7", "BasicLexer.match", okc, "BasicLexer.match no longer returns the scanner's match", f"src/measured/_parser.py:{bm[0].lineno if bm else 0}")
+    sm = [m for m in classes["Scanner"].body if isinstance(m, ast.FunctionDef) and m.name == "match"]
+    oks = False
+    for m in sm:
+        rs = [r for r in ast.walk(m) if isinstance(r, ast.Return) and r.value is not None]
+        mvars = {t.id for n in ast.walk(m) if isinstance(n, ast.Assign) and isinstance(n.value, ast.Call) and isinstance(n.value.func, ast.Attribute)
+                 and n.value.func.attr == "match" for t in n.targets if isinstance(t, ast.Name)}
+        oks = bool(rs) and all(isinstance(r.value, ast.Tuple) and r.value.elts and ast.unparse(r.value.elts[0]) in {f"{v}.group(0)" for v in mvars} for r in rs)
+    rep.check("R16.7", "Scanner.match", oks, "Scanner.match no longer returns the text matched by a compiled terminal regex at the position",
+              f"src/measured/_parser.py:{sm[0].lineno if sm else 0}")
+
+
 def run(rep: Report) -> None:
+    rep.rule("R16.7", "embedded lexer wiring: input is consumed only through the scanner built from the (compared) terminal table", floor=5)
     rep.rule("R16.1", "options: parser type, lexer type and start symbols agree between grammar build, shipped artefact, "
              "Makefile flags and the start= arguments used by Unit.parse / Quantity.parse", floor=4)
     rep.rule("R16.2", "terminals: same names, pattern type / value / flags, priorities, widths; same ignore list, global "
@@ -116,6 +187,7 @@ def run(rep: Report) -> None:
     for nm in ("DATA", "MEMO"):
         rep.check("R16.5", f"assigned-once:{nm}", sh.assignments.get(nm) == 1, f"{nm} is assigned or item-assigned {sh.assignments.get(nm)} times",
                   "src/measured/_parser.py")
+    lexer_wiring(rep, sh.tree)
     # R16.6
     rep.inventory("R16.6", {"embedded_lark": sh.version, "installed_lark": lark_version,
                             "compared": sh.version == lark_version,
